@@ -37,3 +37,4 @@ UNITS = [
     ("C17.exec.every_statement_keyword_dispatches_to_its_own_command", O.unit_exec_dispatch),
 ]
 from props.c17_ext2 import UNITS as _U2; UNITS = UNITS + _U2
+from props.c17_ext5 import UNITS as _U5; UNITS = UNITS + _U5
